@@ -825,6 +825,11 @@ def reference_entries(case, solver, particles, flat_specs):
                 margin = abs(en.psi - theta_c) - off_rad
                 # None = within rounding of the cut: either outcome is accepted
                 en.cut = None if abs(margin) < 1e-9 else bool(margin > 0)
+                if float(np.linalg.norm(vtx - np.asarray(aspec["pos"], dtype=float))) < 1e-6 or \
+                        not math.isfinite(en.psi):
+                    # vertex on top of the antenna (generated: 2e-313 m apart): the ray has no
+                    # direction, so there is no viewing angle to cut on
+                    en.cut = None
                 out[ia].append(en)
     return out, passing
 
